@@ -94,7 +94,16 @@ func (f *frame) loopInvariants(b *ssa.BasicBlock, li *loopInfo, phis []*ssa.Phi)
 		}
 		sort.Slice(hdrs, func(i, j int) bool { return hdrs[i].header.Index < hdrs[j].header.Index })
 		count := map[string]int{}
-		for _, l := range hdrs {
+		for ord, l := range hdrs {
+			if l == li {
+				for _, cl := range ct.Loops[fmt.Sprintf("#%d", ord+1)] {
+					pos := loopPos(li)
+					if err := f.vc.P.prepare(cl, f.fn, pos); err != nil {
+						unsup("loop invariant: %v", err)
+					}
+					out = append(out, &invariant{name: cl.Name, cl: cl, pos: pos})
+				}
+			}
 			for _, nm := range loopNames(f.fn, l) {
 				count[nm]++
 				keys := []string{fmt.Sprintf("%s#%d", nm, count[nm])}
@@ -231,6 +240,10 @@ func (f *frame) checkPre(callee *ssa.Function, ct *Contract, args []Term, pos to
 }
 
 // contractCall replaces a call by the callee's contract.
+func (f *frame) contractCallTerms(callee *ssa.Function, ct *Contract, args []Term, pos token.Pos) []Term {
+	return f.contractCall(callee, ct, nil, args, pos)
+}
+
 func (f *frame) contractCall(callee *ssa.Function, ct *Contract, c *ssa.CallCommon, args []Term, pos token.Pos) []Term {
 	vc := f.vc
 	vc.usedContracts = true
@@ -245,7 +258,11 @@ func (f *frame) contractCall(callee *ssa.Function, ct *Contract, c *ssa.CallComm
 	pre := f.st
 	f.checkPre(callee, ct, args, pos)
 	// effects
-	rs := f.havocCall(callee, callee.Signature, c.Args, false)
+	var argVals []ssa.Value
+	if c != nil {
+		argVals = c.Args
+	}
+	rs := f.havocCall(callee, callee.Signature, argVals, false)
 	g.st = f.st
 	g.oldSt = pre
 	for _, cl := range ct.Ensures {
